@@ -34,6 +34,7 @@ THEOREMS = [
     "C08_recompress_full",
     "C08_keep_own_values",
     "C08_keep_own_unedited",
+    "C08_keep_own_idempotent",
     "C08_expand",
     "C08_expand_zero_count_refuted",
     "C08_recompress",
@@ -261,6 +262,8 @@ def _run_impl(case):
             ob["site"] = "format"
             res["rounds"].append(ob)
             break
+        # standing check: rebuilding again from the same values and writing again gives the same text
+        ob["again_case"] = None
         for n in ln.nodes:
             if isinstance(n, sn.ShortcutNode) and KIND[n._type.value] == "mul" and id(n) in sidof:
                 c = numcopies[id(n)]
@@ -270,6 +273,12 @@ def _run_impl(case):
                 d["mulTxt"] = t
                 d["mulWritten"] = rat(ref.parse_number(t.strip())) if ref.parse_number(t.strip()) is not None else None
         ob["model_case"] = mcase
+        try:
+            ln.update_with_new_values(vals)
+            ob["text2"] = ln.format()
+        except Exception as e:  # noqa: BLE001
+            ob["text2"] = "raised " + type(e).__name__
+        ob.pop("again_case", None)
         res["rounds"].append(ob)
     return res
 
@@ -337,6 +346,11 @@ def judge_round(ob):
         return ({"mechanism": "shortcut", "class": ob["err"], "kind": "list", "site": ob["site"]}, ob["err"])
     bad = ref.compare(ob["text"], _floats(ob["values"]))
     if bad is None:
+        if "text2" in ob and ob["text2"].split() != ob["text"].split():
+            kinds = [pw[0] for w in (ob["text"] + " " + ob["text2"]).split() for pw in [ref.parse_word(w)] if pw and pw[0] != "number"]
+            held = [sc["kind"] for sc in ob.get("model_case", {}).get("shortcuts", [])]
+            kind = "multiply" if ("multiply" in kinds or "mul" in held) else (kinds[0] if kinds else "list")
+            return ({"mechanism": "shortcut", "class": "second-write-differs", "kind": kind, "site": "format"}, f"first {ob['text']!r}, again {ob['text2']!r}")
         return None
     cls, kind, detail = bad
     return ({"mechanism": "shortcut", "class": cls, "kind": kind, "site": "format"}, f"{detail}; text {ob['text']!r}")
@@ -701,6 +715,17 @@ def _run_card(case):
             ob["site"] = "format"
             return ob
         ob["text"] = _read_card(out, CARD[kind])
+        # standing check: a second write of the same problem gives the same bytes
+        out2 = os.path.join(d, "out2.imcnp")
+        try:
+            prob.write_to_file(out2)
+            with open(out, "rb") as f1, open(out2, "rb") as f2:
+                ob["second_same"] = f1.read() == f2.read()
+            if not ob["second_same"]:
+                ob["second_text"] = _read_card(out2, CARD[kind])
+        except Exception as e:  # noqa: BLE001
+            ob["second_same"] = False
+            ob["second_text"] = "raised " + type(e).__name__
         if case.get("keep"):
             with open(out) as fh:
                 ob["kept"] = case["keep"] in fh.read()
@@ -750,6 +775,8 @@ def judge_card(case, ob):
         vals = vals  # every cell has an importance
     bad = ref.compare(ob["text"], vals)
     if bad is None:
+        if ob.get("second_same") is False:
+            return (dict(kind_sig, **{"class": "second-write-differs", "kind": first, "site": "format"}), f"first write {ob['text']!r}, second write {ob.get('second_text')!r}")
         if ob.get("kept") is False:
             return (dict(kind_sig, **{"class": "comment-lost", "kind": first, "site": "consume"}), f"{case['keep']!r} is no longer in the written file")
         return None
@@ -826,7 +853,8 @@ def check_listnode_case(chk, drv, case, ri, table, ci, confirm=True):
         spec = table.get((ci, k, "spec"))
         if spec is not None and "text" in ob:
             lean_ok = bool(spec.get("ok"))
-            if lean_ok != (v is None):
+            py_ok = "err" not in ob and ref.compare(ob["text"], _floats(ob["values"])) is None
+            if lean_ok != py_ok:
                 raise MachineryError(f"the two independent readers disagree on {ob['text']!r} vs {ob['values']}: lean={spec} python={v}")
         if v is not None:
             sig, detail = v
